@@ -513,14 +513,18 @@ impl fmt::Display for MediaPlaylist<'_> {
             // or `METHOD=NONE` resets all keys. If this segment neither keeps nor replaces
             // such a key, the keys have to be reset explicitly before its own keys are
             // announced again.
+            // (the key formats of the segment are collected once, so that the test stays
+            // linear in the number of keys)
+            let segment_formats = segment
+                .keys
+                .iter()
+                .filter_map(|key| key.0.as_ref())
+                .map(|key| key.format.as_ref().unwrap_or(&KeyFormat::Identity))
+                .collect::<BTreeSet<_>>();
+
             let is_dropped = |announced: &ExtXKey<'_>| {
                 announced.0.as_ref().map_or(false, |old| {
-                    !segment.keys.iter().any(|key| {
-                        key.0.as_ref().map_or(false, |new| {
-                            new.format.as_ref().unwrap_or(&KeyFormat::Identity)
-                                == old.format.as_ref().unwrap_or(&KeyFormat::Identity)
-                        })
-                    })
+                    !segment_formats.contains(old.format.as_ref().unwrap_or(&KeyFormat::Identity))
                 })
             };
 
